@@ -404,6 +404,9 @@ def _covered_targets(fn, X, actions_store):
             elif isinstance(t.slice, ast.Name):
                 # for target in <targets list>: X[target] = ...
                 for comp, _ in control_ancestors(x, fn):
+                    if isinstance(comp, ast.For) and unparse(comp.target) == t.slice.id and isinstance(comp.iter, (ast.List, ast.Tuple)):
+                        # for target in ['rewards', 'feedbacks']: X[target] = ...
+                        covered |= {const_str(e) for e in comp.iter.elts if const_str(e) in TARGETS}
                     if isinstance(comp, ast.For) and unparse(comp.target) == t.slice.id and isinstance(comp.iter, ast.Name):
                         lst = comp.iter.id
                         for y in walk_shallow(fn):
@@ -439,6 +442,16 @@ def r2_action_follows(ctx, writers):
             for a in act_stores:
                 tra = transformers(a.value, fn, ctx, c)
                 same = bool({n for n, _ in tra} & names)
+                # equally good: the logged action is replaced by the member of the NEW action list that stands where it stood in the old one
+                # (<new actions>[<old actions>.index(<old action>)])
+                v = a.value
+                if not same and isinstance(v, ast.Subscript) and isinstance(v.slice, ast.Call) and call_tail(v.slice) == "index" and len(v.slice.args) == 1:
+                    new_txt = {f"{X}['actions']", unparse(st.value)} | ({st.value.id} if isinstance(st.value, ast.Name) else set())
+                    src = v.slice.func.value
+                    arg = v.slice.args[0]
+                    olds_ok, _ = _is_old_actions(src, fn, X, st)
+                    arg_is_old_action = isinstance(arg, ast.Subscript) and const_str(arg.slice) == "action"
+                    same = unparse(v.value) in new_txt and olds_ok and arg_is_old_action
                 ctx.ob("C10.R2", c.rel, qual, a, "action goes through the same transformer as actions", same,
                        detail={"actions": sorted(names), "action": sorted(n for n, _ in tra)})
                 # the switches (self.<flag>) under which `action` is re-represented are those under which `actions` is
@@ -497,8 +510,11 @@ def r4_finalize(ctx):
 
 
 CONTROLS = [
-    ("sparse action sets memoised by id()", EF, M.replace_expr("Sparsify.filter", "list(map(self._make_sparse, new['actions'], repeat(actions_has_headers), repeat('action')))",
-        "{}.setdefault(id(new['actions']), list(map(self._make_sparse, new['actions'], repeat(actions_has_headers), repeat('action'))))"), "C10.R11"),
+    ("Sparsify leaves reward functions on the old actions", EF, M.delete_stmt("Sparsify.filter", lambda st: isinstance(st, ast.For) and ast.unparse(st.target) == "target"), "C10.R1"),
+    ("Noise leaves the logged action un-noised", EF, M.delete_stmt("Noise.filter", M.text_has("new['action'] = noisy_actions")), "C10.R2"),
+    ("Flatten leaves the logged action nested", EF, M.delete_stmt("Flatten.filter", M.text_has("new['action'] = new['actions']")), "C10.R2"),
+    ("sparse action sets memoised by id()", EF, M.replace_expr("Sparsify.filter", "list(map(self._make_sparse, old_actions, repeat(actions_has_headers), repeat('action')))",
+        "{}.setdefault(id(old_actions), list(map(self._make_sparse, old_actions, repeat(actions_has_headers), repeat('action'))))"), "C10.R11"),
     ("Densify restores its table before replaying", EF, M.replace_stmt("Densify.__setstate__", lambda st: isinstance(st, ast.For), "for key in lookup: self._lookup.get(key)"), "C10.R11"),
     ("batch transposed by position", EF, M.replace_expr("Batch.filter", "list(map(itemgetter(key), batch))", "list(list(zip(*[i.values() for i in batch]))[list(first).index(key)])"), "C10.R9"),
     ("DiscreteReward rewards taken over by position unconditionally", EF, M.replace_expr("Repr.filter", "isinstance(old[target], DiscreteReward) and old[target].actions == old['actions']", "isinstance(old[target], DiscreteReward)"), "C10.R1"),
